@@ -37,6 +37,7 @@ import (
 	"net"
 	"net/netip"
 	"os"
+	"strconv"
 	"runtime"
 	"slices"
 	"sync"
@@ -1025,7 +1026,16 @@ func TestC15(t *testing.T) {
 	}
 	waitForRxTimestamps(t)
 	rounds, retried, unjudged, sessions := 0, 0, 0, 0
+	// wall budget (seconds) given by the check: when the rounds take far longer than planned (a
+	// tree on which rounds only end with their context) the driver stops early, says so in a last
+	// record, and the records written so far are judged; the check never reads the cut as a verdict
+	budget, _ := strconv.Atoi(os.Getenv("VERIF_BUDGET_S"))
+	start := time.Now()
 	for i := range cases {
+		if budget > 0 && time.Since(start) > time.Duration(budget)*time.Second {
+			out.Emit(map[string]any{"kind": "cutoff", "done": i, "total": len(cases), "retried": retried})
+			break
+		}
 		c := &cases[i]
 		switch c.Kind {
 		case "round":
